@@ -47,7 +47,7 @@ var argMutators = map[string]int{
 }
 
 var reflectMutators = map[string]bool{"Set": true, "SetBool": true, "SetInt": true, "SetUint": true, "SetFloat": true, "SetString": true, "SetBytes": true, "SetLen": true,
-	"SetCap": true, "SetMapIndex": true, "SetIterKey": true, "SetIterValue": true, "SetComplex": true, "SetPointer": true, "SetZero": true, "Grow": true, "Clear": true}
+	"SetCap": true, "Recv": true, "TryRecv": true, "Send": true, "TrySend": true, "Close": true, "SetMapIndex": true, "SetIterKey": true, "SetIterValue": true, "SetComplex": true, "SetPointer": true, "SetZero": true, "Grow": true, "Clear": true}
 
 type rootClass struct {
 	class string // fresh | owned-param | shared | global | unknown
